@@ -46,6 +46,8 @@ def mh_src(mh):
         return f"IntList({list(mh[1])!r})"
     if k == "FloatRange":
         return f"FloatRange({float(mh[1])!r}, {float(mh[2])!r})"
+    if k == "FloatRangeInt":        # bounds written as int literals, as users often do
+        return f"FloatRange({int(mh[1])}, {int(mh[2])})"
     if k == "FloatList":
         return f"FloatList({[float(x) for x in mh[1]]!r})"
     if k == "VarRange":
@@ -290,7 +292,7 @@ def gen_spec(R, feats, gid="g"):
     if "weights" in feats:
         for c in classes:
             if c["parent"] and R.random() < 0.6:
-                c["weight"] = R.choice([0, 1, 2, 6, 0.5])
+                c["weight"] = R.choice([0, 1, 2, 6, 0.5, 0.1, 0.25, 0.3])
         # never all-zero under one non-terminal (normalisation would divide by zero)
         for a in abstracts:
             ps = [c for c in classes if c["parent"] == a]
@@ -359,7 +361,9 @@ FIXED = [
                        ("g", ("ann", ("base", "float"), ("FloatList", [0.5, 1.25])))]),
         _c("R3", "R", [("w", ("ann", ("base", "str"), ("WeightedStr", [[0.5, 0.5, 0.0], [0.0, 0.25, 0.75]], ["a", "c", "g"]))),
                        ("iv", ("ann", ("tuple", [("base", "int"), ("base", "int")]), ("Interval", 1, 3, 6)))]),
-        _c("R4", "R", [("xs", ("ann", ("list", I03), ("ListSize", 0, 2))), ("r", ("sym", "R"))])]},
+        _c("R4", "R", [("xs", ("ann", ("list", I03), ("ListSize", 0, 2))), ("r", ("sym", "R"))]),
+        _c("R5", "R", [("p", ("ann", ("base", "float"), ("FloatRangeInt", 0, 1))),
+                       ("q", ("ann", ("base", "float"), ("FloatRangeInt", -5, 5)))])]},
 ]
 
 
@@ -379,6 +383,11 @@ FIXED += [
     {"id": "unionstart", "start": "S", "classes": [
         _c("S", "", abstract=True), _c("Lit", "", [("v", I01)]), _c("Deep", "", [("l", ("sym", "S"))]),
         _c("A", "S", [("u", ("union", [("sym", "Lit"), ("sym", "Deep")]))])]},
+    # a recursive production whose own minimum depth is 3 (a non-recursive tail chain below it)
+    {"id": "tailchain", "start": "S", "classes": [
+        _c("S", "", abstract=True), _c("T1", "", abstract=True), _c("T2", "", abstract=True),
+        _c("SLeaf", "S", []), _c("Leaf2", "T2", [("v", I01)]), _c("MkT1", "T1", [("t", ("sym", "T2"))]),
+        _c("Wrap", "S", [("a", ("sym", "S")), ("tail", ("sym", "T1"))])]},
     # nested generics: list of union, list of tuple, list of list
     {"id": "nestedgen", "start": "Expr", "classes": [
         _c("Expr", "", abstract=True), _c("Lit", "Expr", [("v", I01)]),
@@ -444,7 +453,22 @@ class Var(Expr):
     name: Annotated[str, Dependent("ctx", lambda ctx: VarRange(ctx))]
 '''
 
-RAW = [{"id": "ctx", "source": RAW_CTX, "start": "Expr", "names": ["Expr", "Literal", "Let", "Var"], "feats": ["raw"]}]
+# the same idea with a non-terminal that has exactly ONE production which can be infeasible, below a non-terminal
+# that can backtrack to another production
+RAW_CTX2 = RAW_CTX.replace("""@dataclass
+class Var(Expr):""", """class Ref(ABC):
+    pass
+
+@dataclass
+class Use(Expr):
+    ref: Ref
+
+@dataclass
+class Var(Ref):""")
+
+RAW = [{"id": "ctx", "source": RAW_CTX, "start": "Expr", "names": ["Expr", "Literal", "Let", "Var"], "feats": ["raw"]},
+       {"id": "ctx2", "source": RAW_CTX2, "start": "Expr", "names": ["Expr", "Literal", "Let", "Ref", "Use", "Var"],
+        "feats": ["raw"]}]
 
 
 def build_raw(raw) -> Built:
